@@ -26,6 +26,10 @@ const c06FilteredIP = "192.0.2.66" // rejected by the remote IP filter of both a
 // supersession, TCP-active/passive remotes, filtered addresses, Restart and failure; global
 // bookkeeping invariants are evaluated on the public getters at every quiescent point.
 func runC06(c *core.Ctx) {
+	if c.T.Bias(1, 8, "late-signal-scenario") {
+		runC06LateSignal(c)
+		return
+	}
 	k := drawC01Knobs(c)
 	k.liteB = false
 	k.trickle = c.T.Bias(3, 4, "trickle2")
@@ -265,6 +269,21 @@ func (o *c06Oracle) invariants() {
 		}
 		if s.Selected != "" && !seen[s.Selected] {
 			c.Failf("C06/selected-not-listed", "%s selected %s which is not among its listed pairs %v", ag.Name, s.Selected, s.Pairs)
+		}
+		if st, ok := ag.A.GetSelectedCandidatePairStats(); ok && s.LastState != ice.ConnectionStateClosed {
+			// the selected pair is formed from CURRENT candidates: the very candidates the agent lists (by their
+			// ids), not objects that were superseded or removed meanwhile
+			okL, okR := false, false
+			for _, ls := range ag.A.GetLocalCandidatesStats() {
+				okL = okL || ls.ID == st.LocalCandidateID
+			}
+			for _, rs := range ag.A.GetRemoteCandidatesStats() {
+				okR = okR || rs.ID == st.RemoteCandidateID
+			}
+			if !okL || !okR {
+				c.Failf("C06/selected-pair-of-superseded-candidate", "%s: the selected pair (%s) uses a candidate that is not (any more) among the agent's current candidates (local listed: %v, remote listed: %v)",
+					ag.Name, s.Selected, okL, okR)
+			}
 		}
 		rseen := map[string]bool{}
 		for _, r := range s.Remotes {
